@@ -135,7 +135,7 @@ func (e *Exec) intrinsic(fn *ssa.Function, args []Value) (Value, bool) {
 	case "vNondetAtom":
 		site := e.siteKey(e.mustConstString(args[0], "nondet site"))
 		t := smt.Var("atom:"+site, smt.StrS)
-		e.assume(smt.ULe(strlenOf(t), smt.Const(1<<16, 64)))
+		e.assume(smt.ULe(strlenOf(t), smt.Const(600, 64)))
 		e.addSite(NondetSite{Key: site, Kind: "atom", Term: t})
 		e.registerAtom(t)
 		return Str{Fn: FnAtom{t}, Off: c0, Len: strlenOf(t)}, true
@@ -190,6 +190,8 @@ func (e *Exec) intrinsic(fn *ssa.Function, args []Value) (Value, bool) {
 		return e.viewEq(bytesView(args[0].(Bytes)), bytesView(args[1].(Bytes))), true
 	case "vHasPrefix":
 		return e.hasPrefixTerm(bytesView(args[0].(Bytes)), bytesView(args[1].(Bytes))), true
+	case "vHasPrefixS":
+		return e.hasPrefixTerm(strView(args[0].(Str)), strView(args[1].(Str))), true
 	case "vInstantiate":
 		// register an index term for targeted instantiation of assumed equalities
 		e.path.idxTerms = append(e.path.idxTerms, smt.SExt(args[0].(*smt.Term), 64))
@@ -224,6 +226,50 @@ func (e *Exec) intrinsic(fn *ssa.Function, args []Value) (Value, bool) {
 			}
 		}
 		return Str{Fn: FnAtom{res}, Off: c0, Len: strlenOf(res)}, true
+	case "vAllBytesIn", "vNoBytesIn":
+		// spec-level predicate: every byte of s[lo:hi] is (not) one of the bytes of set;
+		// encoded by bounded expansion, independent of the regexp translator
+		sv := strView(args[0].(Str))
+		lo := smt.SExt(args[1].(*smt.Term), 64)
+		hi := smt.SExt(args[2].(*smt.Term), 64)
+		set := e.mustConstString(args[3], "byte set")
+		M, ok := e.feasibleMax(sv.Len)
+		if !ok {
+			panic(engineErr("%s on a string of unbounded length", name))
+		}
+		var cs []*smt.Term
+		for i := 0; i < M; i++ {
+			b := sv.at(c64(i))
+			var in []*smt.Term
+			// compress the set into ranges
+			present := [256]bool{}
+			for k := 0; k < len(set); k++ {
+				present[set[k]] = true
+			}
+			for c := 0; c < 256; {
+				if !present[c] {
+					c++
+					continue
+				}
+				d := c
+				for d+1 < 256 && present[d+1] {
+					d++
+				}
+				if c == d {
+					in = append(in, smt.Eq(b, smt.Const(uint64(c), 8)))
+				} else {
+					in = append(in, smt.And(smt.UGe(b, smt.Const(uint64(c), 8)), smt.ULe(b, smt.Const(uint64(d), 8))))
+				}
+				c = d + 1
+			}
+			member := smt.Or(in...)
+			if name == "vNoBytesIn" {
+				member = smt.Not(member)
+			}
+			inRange := smt.And(smt.SLe(lo, c64(i)), smt.SLt(c64(i), hi), smt.ULt(c64(i), sv.Len))
+			cs = append(cs, smt.Implies(inRange, member))
+		}
+		return smt.And(cs...), true
 	case "vAll", "vAny":
 		sl := args[0].(Slice)
 		var ts []*smt.Term
